@@ -447,7 +447,14 @@ pub fn record(args: &Args) {
 			o = Object::new();
 			lines.push(json!({"ev": "reset"}));
 		}
-		let k = if rng.chance(2, 3) && !o.is_empty() {
+		// position inside the current segment (between two resets): first the object collects many DISTINCT keys (so that the
+		// key table grows through several sizes), then a mixed phase, then it is drained down to a few entries (so that the
+		// table passes its thresholds in the other direction), then mixed again
+		let at = step % per;
+		let (growing, draining) = (at < per / 4, at >= per * 3 / 5 && at < per * 19 / 20);
+		let k = if growing {
+			keys[rng.below(keys.len())].clone()
+		} else if rng.chance(2, 3) && !o.is_empty() {
 			// prefer keys that are present: duplicates and removals matter
 			o.entries()[rng.below(o.len())].key.to_string()
 		} else {
@@ -463,8 +470,9 @@ pub fn record(args: &Args) {
 		};
 		// phases: the object mostly grows for a while, then is mostly drained (down to a few entries, so that the key
 		// table passes its shrink / tombstone thresholds in both directions), then grows again
-		let draining = (step / 60) % 3 == 2;
-		let name = if draining && rng.chance(4, 5) && !o.is_empty() {
+		let name = if growing && rng.chance(4, 5) {
+			*rng.pick(&["push", "push", "push_front", "insert", "insert_front", "get_or_insert"])
+		} else if draining && rng.chance(5, 6) && !o.is_empty() {
 			match rng.below(10) {
 				0..=4 => "remove_at",
 				5..=6 => "remove",
